@@ -120,7 +120,7 @@ def build(provider, cfg, sched, start=0, qsize_arg=None):
 
     def join_w(timeout=None):
         sched.arrive("cons", "join", None)
-        real_join(timeout=3.0)
+        real_join(timeout=60.0)  # generous: a loaded machine must not turn a slow thread exit into a false alarm
         if pipe.is_alive():
             sched.problems.append("join returned while the reader thread is alive")
         sched.log("join")
@@ -236,15 +236,35 @@ def forced_replay(provider, g, init, path, start=0):
             H["cons"].join(1.0)
 
 
-def free_run(provider, cfg, seed, start=0, watchdog=6.0):
+def free_run(provider, cfg, seed, start=0, watchdog=90.0):
     """Free-running threads; returns the recorded trace (events as [kind, arg])."""
     from harness.sched import Sched
 
     sched = Sched(forced=False, seed=seed)
     H = build(provider, cfg, sched, start)
     H["cons"].start()
-    H["cons"].join(watchdog)
-    hang = H["cons"].is_alive() or H["pipe"].is_alive()
+    # watchdog = deadlock detection, not wall-clock guessing (robust on a loaded machine): the run is hung when the
+    # reader thread is dead, the queue is empty and the consumer is still waiting - nobody can ever wake it.
+    t_end, stuck_since, hang = time.time() + watchdog, None, False
+    while H["cons"].is_alive():
+        H["cons"].join(0.05)
+        if not H["cons"].is_alive():
+            break
+        started = H["pipe"].ident is not None
+        dead_reader = started and not H["pipe"].is_alive()
+        if dead_reader and H["q"].qsize() == 0:
+            stuck_since = stuck_since or time.time()
+            if time.time() - stuck_since > 1.5:
+                hang = True
+                break
+        else:
+            stuck_since = None
+        if time.time() > t_end:
+            hang = True
+            break
+    if not hang:
+        H["pipe"].join(5.0)
+        hang = H["pipe"].is_alive()
     exp = H["meta"]["expect"]
     fmap = {e["frame_idx"]: p + 1 for p, e in enumerate(exp)}
 
